@@ -106,6 +106,9 @@ TRUSTED_BASE = TRUSTED_BASE + [
     "from Data.__init__ on every run (Gen/Subset.lean); the glue (which block runs, verif.util.intersect, the error "
     "exits) is Model/SubsetGen.lean useLocationsGen = Model/Data.lean useLocations (GenEq.Subset.useLocationsGen_eq); "
     "validated each run by stream data.gensubset, which executes the assembled pieces against the real constructor"]
+RULE += ("; data.subset with -obsrange (p = 0.3): about 30 % of these datasets have >= 2 files (climatology file included) whose OWN "
+         "observations disagree across the ends of the inclusive range in common cases (lo | lo-1/2, hi+1/2 | hi, inside | outside): "
+         "an input is filtered by its own observation (datagen.with_obs_disagreement)")
 RULE += ("; data.gensubset: one input with 1-8 stations on a small coordinate grid, -l / -lx / -latrange / -lonrange / "
          "-elevrange each present with p about 1/2, range ends on a station's coordinate or 0.5 off; observable = the "
          "verified location ids or the error exit, judged by the documented set semantics written in Python")
